@@ -1,8 +1,10 @@
 //! C12 harness: serialization round trip (winter_utils serde layer, field elements, digests, air/fri structures).
 //!   c12 corr <seed> <n>     -> lines "<case> => <impl result>" (protocol: ocaml/c12_driver.ml)
 //!        enc <ty> <args..>  => hex of to_bytes() of the value built with the REAL constructor | panic
-//!        dec <ty> <hex>     => ok <show> rem=<unread> | err eof | err invalid | err other | panic   (SliceReader)
-//!     stderr: "dist <class>=<count> ..." (input distribution)
+//!        dec <ty> <hex>     => ok <show> rem=<unread> | err eof | err invalid | err other | panic
+//!                              (the common result of SliceReader, std::io::Cursor and ReadAdapter over a chunked source;
+//!                               "READERS-DISAGREE ..." with the three results otherwise)
+//!     stderr: "cells {"<impl>|<class>":n,..}" (serde/mod.rs impl x complete/trailing/truncated), "dist <class>=<count> ..."
 //!   c12 falsify <seed> <n>  -> one JSON object per failure of the model-independent oracle
 //!        T::read_from(reader over v.to_bytes() ++ junk) == Ok(v) and exactly junk is left unread,
 //!        for SliceReader, std::io::Cursor and ReadAdapter (slice source, random chunking, short-read sources
@@ -64,6 +66,21 @@ impl<A: Show, B: Show> Show for (A, B) {
 }
 impl<A: Show, B: Show, C: Show> Show for (A, B, C) {
     fn show(&self) -> String { format!("({},{},{})", self.0.show(), self.1.show(), self.2.show()) }
+}
+impl Show for () {
+    fn show(&self) -> String { "()".into() }
+}
+impl<A: Show> Show for (A,) {
+    fn show(&self) -> String { format!("({},)", self.0.show()) }
+}
+impl<A: Show, B: Show, C: Show, D: Show> Show for (A, B, C, D) {
+    fn show(&self) -> String { format!("({},{},{},{})", self.0.show(), self.1.show(), self.2.show(), self.3.show()) }
+}
+impl<A: Show, B: Show, C: Show, D: Show, E: Show> Show for (A, B, C, D, E) {
+    fn show(&self) -> String { format!("({},{},{},{},{})", self.0.show(), self.1.show(), self.2.show(), self.3.show(), self.4.show()) }
+}
+impl<A: Show, B: Show, C: Show, D: Show, E: Show, F: Show> Show for (A, B, C, D, E, F) {
+    fn show(&self) -> String { format!("({},{},{},{},{},{})", self.0.show(), self.1.show(), self.2.show(), self.3.show(), self.4.show(), self.5.show()) }
 }
 impl<K: Show, V: Show> Show for BTreeMap<K, V> {
     fn show(&self) -> String {
@@ -233,27 +250,54 @@ fn classify<T: Show>(r: Result<(Result<T, DeserializationError>, usize), String>
         Ok((Err(_), _)) => "err other".into(),
     }
 }
-fn dec_slice<T: Deserializable + Show>(bytes: &[u8]) -> String {
+fn dec_with<T: Deserializable + Show, R: ByteReader>(mk: impl FnOnce() -> R) -> String {
     classify(catch(AssertUnwindSafe(|| {
-        let mut r = SliceReader::new(bytes);
+        let mut r = mk();
         let v = T::read_from(&mut r);
         let rem = if v.is_ok() { remaining(&mut r).len() } else { 0 };
         (v, rem)
     })))
 }
+/// chunk-size patterns of the sources behind ReadAdapter (rotated over the cases)
+const ADAPTER_PATTERNS: [&[usize]; 7] = [&[1], &[3], &[7], &[1, 3, 7], &[255, 2], &[usize::MAX], &[16, 1, 300]];
+/// every decoding case goes through ALL THREE ByteReader implementations (SliceReader, std::io::Cursor, ReadAdapter over a
+/// chunked source); the line carries the common result, or all three when they disagree (then no model result can match)
+fn dec_all<T: Deserializable + Show>(bytes: &[u8], k: usize) -> String {
+    let a = dec_with::<T, _>(|| SliceReader::new(bytes));
+    let b = dec_with::<T, _>(|| std::io::Cursor::new(bytes));
+    let mut ch = Chunked { data: bytes, pos: 0, sizes: ADAPTER_PATTERNS[k % ADAPTER_PATTERNS.len()].to_vec(), k: 0 };
+    let c = dec_with::<T, _>(|| ReadAdapter::new(&mut ch));
+    if a == b && b == c { a } else { format!("READERS-DISAGREE SliceReader[{}] Cursor[{}] ReadAdapter{:?}[{}]", a, b, ADAPTER_PATTERNS[k % ADAPTER_PATTERNS.len()], c) }
+}
+/// serde/mod.rs impl exercised by a correspondence type name ("" = none of them: field elements, air/fri structures)
+fn corr_tag(ty: &str) -> &'static str {
+    match ty {
+        "u8" => "u8", "u16" => "u16", "u32" => "u32", "u64" => "u64", "u128" => "u128", "usize" => "usize", "bool" => "bool",
+        "unit" => "unit", "tup1" => "tuple1", "tup2" => "tuple2", "tup" => "tuple3", "tup4" => "tuple4", "tup5" => "tuple5", "tup6" => "tuple6",
+        "opt_u32" | "opt_vec_u8" => "option", "vec_u16" | "vec_vec_u8" | "vec_opt_u64" => "vec", "arr4_u16" => "array",
+        "string" => "string", "map_u32_bytes" => "map", "set_u64" => "set",
+        _ => "",
+    }
+}
 
 /// Lines are streamed: a decoding case is printed as "<case> => " BEFORE the library is called, so that a
 /// process abort inside the library (allocation failure is not a panic) leaves the culprit as the last line.
-struct Out { count: usize, dist: BTreeMap<String, usize> }
+struct Out { count: usize, dist: BTreeMap<String, usize>, cells: BTreeMap<(String, String), usize>, tag_override: Option<&'static str> }
 impl Out {
+    fn cell(&mut self, class: &str, ty: &str) {
+        let cl = match class { "dec-exact" => "complete", "dec-trailing" => "trailing", "dec-truncated" => "truncated", _ => return };
+        let tag = self.tag_override.unwrap_or(corr_tag(ty));
+        if !tag.is_empty() { *self.cells.entry((tag.to_string(), cl.to_string())).or_insert(0) += 1; }
+    }
     fn push(&mut self, class: &str, line: String) { *self.dist.entry(class.to_string()).or_insert(0) += 1; self.count += 1; println!("{}", line); }
     fn dec<T: Deserializable + Show>(&mut self, class: &str, ty: &str, bytes: &[u8]) {
         use std::io::Write;
         *self.dist.entry(class.to_string()).or_insert(0) += 1;
         self.count += 1;
+        self.cell(class, ty);
         print!("dec {} {} => ", ty, hex_bytes(bytes));
         std::io::stdout().flush().unwrap();
-        println!("{}", dec_slice::<T>(bytes));
+        println!("{}", dec_all::<T>(bytes, self.count));
     }
 }
 
@@ -266,7 +310,7 @@ fn dec_cases<T: Deserializable + Show>(o: &mut Out, r: &mut Rng, ty: &str, bytes
     t.extend(r.bytes(k));
     one(o, "dec-trailing", &t);
     let n = bytes.len();
-    if n <= 24 { for k in 0..n { one(o, "dec-truncated", &bytes[..k]); } }
+    if n <= 48 { for k in 0..n { one(o, "dec-truncated", &bytes[..k]); } }
     else { for _ in 0..4 { let k = r.below(n as u64) as usize; one(o, "dec-truncated", &bytes[..k]); } one(o, "dec-truncated", &bytes[..n - 1]); }
     if n > 0 {
         for _ in 0..muts {
@@ -465,7 +509,7 @@ fn mk_proof(r: &mut Rng, big: bool) -> Proof {
 fn corr(seed: u64, n: usize) {
     let mut r = Rng::new(seed);
     let r = &mut r;
-    let mut o = Out { count: 0, dist: BTreeMap::new() };
+    let mut o = Out { count: 0, dist: BTreeMap::new(), cells: BTreeMap::new(), tag_override: None };
     let o = &mut o;
     let reps = (n / 40).max(2);
 
@@ -539,6 +583,43 @@ fn corr(seed: u64, n: usize) {
         let s: BTreeSet<u64> = (0..r.below(7)).map(|_| *r.pick(&[0u64, 1, 2, 255, 256, u64::MAX, 1 << 40])).collect();
         enc_dec::<BTreeSet<u64>>(o, r, "set_u64", &hexlist(&s.iter().copied().collect::<Vec<_>>()), &s, 4);
     }
+    // --- coverage round: every remaining impl of serde/mod.rs: (), the tuples of arity 1, 2, 4, 5, 6 (fields of pairwise
+    // different widths, so a reordering of the reads is visible), and the write-only impls [T] and str whose bytes are read back
+    // as Vec<T> / String
+    enc_dec::<()>(o, r, "unit", "", &(), 0);
+    for _ in 0..reps.min(4) {
+        let t1 = (*r.pick(&[0u16, 1, 0xff, 0x100, 0xffff, 0x1234]),);
+        enc_dec::<(u16,)>(o, r, "tup1", &format!("{:x}", t1.0), &t1, 2);
+        let t2 = (r.next_u64() as u16, r.next_u64() as u8);
+        enc_dec::<(u16, u8)>(o, r, "tup2", &format!("{:x} {:x}", t2.0, t2.1), &t2, 2);
+        let t4 = (r.next_u64() as u8, r.next_u64() as u16, r.next_u64() as u32, r.next_u64());
+        enc_dec::<(u8, u16, u32, u64)>(o, r, "tup4", &format!("{:x} {:x} {:x} {:x}", t4.0, t4.1, t4.2, t4.3), &t4, 3);
+        let t5 = (r.next_u64() as u8, r.next_u64() as u16, r.next_u64() as u32, r.next_u64(), r.next_u128());
+        enc_dec::<(u8, u16, u32, u64, u128)>(o, r, "tup5", &format!("{:x} {:x} {:x} {:x} {:x}", t5.0, t5.1, t5.2, t5.3, t5.4), &t5, 3);
+        let t6 = (r.next_u64() as u8, r.next_u64() as u16, r.next_u64() as u32, r.next_u64(), r.next_u128(), rand_size(r) as usize);
+        enc_dec::<(u8, u16, u32, u64, u128, usize)>(o, r, "tup6", &format!("{:x} {:x} {:x} {:x} {:x} {:x}", t6.0, t6.1, t6.2, t6.3, t6.4, t6.5), &t6, 3);
+    }
+    { // the vint64 field of the 6-tuple in its 9-byte form, at the end and truncated inside it
+        let t6 = (0u8, 0xffffu16, 0u32, u64::MAX, 1u128 << 127, u64::MAX as usize);
+        enc_dec::<(u8, u16, u32, u64, u128, usize)>(o, r, "tup6", &format!("{:x} {:x} {:x} {:x} {:x} {:x}", t6.0, t6.1, t6.2, t6.3, t6.4, t6.5), &t6, 3);
+    }
+    for len in [0usize, 1, 2, 5, 127, 128] {
+        let v: Vec<u16> = (0..len).map(|_| r.next_u64() as u16).collect();
+        let bytes = <[u16] as Serializable>::to_bytes(&v[..]);
+        o.push("enc", format!("enc slice_u16 {} => {}", hexlist(&v), hex_bytes(&bytes)));
+        o.tag_override = Some("slice");
+        dec_cases::<Vec<u16>>(o, r, "vec_u16", &bytes, 2);
+        o.tag_override = None;
+    }
+    for n in [0usize, 1, 5, 40, 127, 128] {
+        let st = rand_utf8(r, n);
+        let bytes = <str as Serializable>::to_bytes(st.as_str());
+        o.push("enc", format!("enc str {} => {}", hex_bytes(st.as_bytes()), hex_bytes(&bytes)));
+        o.tag_override = Some("str");
+        dec_cases::<String>(o, r, "string", &bytes, 2);
+        o.tag_override = None;
+    }
+
     // unsorted / duplicate keys on the wire (from_iter semantics)
     {
         let mut bs = 3usize.to_bytes();
@@ -720,12 +801,15 @@ fn corr(seed: u64, n: usize) {
         o.dec::<BTreeMap<u32, Vec<u8>>>("dec-random", "map_u32_bytes", &bs);
     }
 
+    // which serde/mod.rs impl x input class cells were driven (each decoding case runs on all three readers)
+    let c = o.cells.iter().map(|((t, c), v)| format!("\"{}|{}\":{}", t, c, v)).collect::<Vec<_>>().join(",");
+    eprintln!("cells {{{}}}", c);
     let d = o.dist.iter().map(|(k, v)| format!("{}={}", k, v)).collect::<Vec<_>>().join(" ");
     eprintln!("dist {} total={}", d, o.count);
 }
 
 // --------------------------------------------------------------------------------------------- falsifier
-struct Fails { n: usize, evals: usize }
+struct Fails { n: usize, evals: usize, cells: BTreeMap<(String, String, String), usize> }
 impl Fails {
     fn fail(&mut self, what: &str, input: &str, expected: &str, actual: &str) {
         self.n += 1;
@@ -792,13 +876,145 @@ fn rt<T: Serializable + Deserializable + PartialEq + Debug>(ty: &str, desc: &str
     }
 }
 
+
+// ------------------------------------------------------------ impl x reader x input-class matrix (coverage round)
+/// one decoding experiment, generic over the reader implementation
+trait Visit { fn visit<R: ByteReader>(&mut self, name: &str, mk: impl FnOnce() -> R); }
+/// runs the experiment on SliceReader, std::io::Cursor and ReadAdapter (source delivering `sizes` bytes per read())
+fn for_readers(all: &[u8], sizes: &[usize], v: &mut impl Visit) {
+    v.visit("SliceReader", || SliceReader::new(all));
+    v.visit("Cursor", || std::io::Cursor::new(all));
+    let mut ch = Chunked { data: all, pos: 0, sizes: sizes.to_vec(), k: 0 };
+    v.visit("ReadAdapter", || ReadAdapter::new(&mut ch));
+}
+enum Expect<'a, T> { Value(&'a T, &'a [u8]), Eof }
+struct Cell<'a, T> { tag: &'a str, ty: &'a str, desc: String, class: &'a str, expect: Expect<'a, T>, via_read: bool, f: &'a mut Fails }
+impl<'a, T: Deserializable + PartialEq + Debug> Visit for Cell<'a, T> {
+    fn visit<R: ByteReader>(&mut self, name: &str, mk: impl FnOnce() -> R) {
+        self.f.evals += 1;
+        *self.f.cells.entry((self.tag.to_string(), name.to_string(), self.class.to_string())).or_insert(0) += 1;
+        let what = format!("matrix:{}:{}:{}:{}", self.tag, name, self.class, self.ty);
+        let via_read = self.via_read;
+        let junk_len = match &self.expect { Expect::Value(_, j) => j.len(), Expect::Eof => 0 };
+        let res = catch(AssertUnwindSafe(|| {
+            let mut rd = mk();
+            let x = if via_read { rd.read::<T>() } else { T::read_from(&mut rd) };
+            // end-of-data observations through the reader's own interface (no byte is consumed by them)
+            let eor_k = rd.check_eor(junk_len);
+            let eor_k1 = rd.check_eor(junk_len + 1);
+            let more = rd.has_more_bytes();
+            let rem = if x.is_ok() { remaining(&mut rd) } else { vec![] };
+            let more_after = rd.has_more_bytes();
+            let eor_after = rd.check_eor(1);
+            (x, eor_k, eor_k1, more, rem, more_after, eor_after)
+        }));
+        match (&self.expect, res) {
+            (_, Err(m)) => self.f.fail(&what, &self.desc, "no panic", &format!("panic: {}", m)),
+            (Expect::Eof, Ok((x, ..))) => match x {
+                Err(DeserializationError::UnexpectedEOF) => {}
+                Err(e) => self.f.fail(&what, &self.desc, "Err(UnexpectedEOF)", &format!("Err({:?})", e)),
+                Ok(v) => self.f.fail(&what, &self.desc, "Err(UnexpectedEOF)", &format!("Ok({:?})", v)),
+            },
+            (Expect::Value(v, junk), Ok((x, eor_k, eor_k1, more, rem, more_after, eor_after))) => match x {
+                Err(e) => self.f.fail(&what, &self.desc, "Ok(v), junk unread", &format!("Err({})", e)),
+                Ok(x) => {
+                    if &x != *v { self.f.fail(&what, &self.desc, &format!("{:?}", v), &format!("{:?}", x)); }
+                    else if rem != *junk { self.f.fail(&what, &self.desc, &format!("unread={}", hex_bytes(junk)), &format!("unread={}", hex_bytes(&rem))); }
+                    else if eor_k.is_err() { self.f.fail(&what, &self.desc, &format!("check_eor({}) = Ok after decoding", junk.len()), &format!("{:?}", eor_k)); }
+                    // the in-memory readers know the exact end; ReadAdapter may answer optimistically before it has seen EOF (C13)
+                    else if name != "ReadAdapter" && eor_k1 != Err(DeserializationError::UnexpectedEOF) { self.f.fail(&what, &self.desc, &format!("check_eor({}) = Err(UnexpectedEOF) after decoding", junk.len() + 1), &format!("{:?}", eor_k1)); }
+                    else if more != !junk.is_empty() { self.f.fail(&what, &self.desc, &format!("has_more_bytes() = {}", !junk.is_empty()), &format!("{}", more)); }
+                    else if more_after || eor_after != Err(DeserializationError::UnexpectedEOF) { self.f.fail(&what, &self.desc, "at end of data: has_more_bytes() = false, check_eor(1) = Err(UnexpectedEOF)", &format!("{} {:?}", more_after, eor_after)); }
+                }
+            },
+        }
+    }
+}
+/// `bytes` (the encoding of `v` by the impl named `tag`) decoded as T: complete, with trailing bytes, and every proper prefix
+/// (all of them up to 64 bytes, otherwise the first 16, the last 8 and 16 random ones), each on all three readers
+fn matrix_bytes<T: Deserializable + PartialEq + Debug>(tag: &str, ty: &str, desc: &str, bytes: &[u8], v: &T, r: &mut Rng, f: &mut Fails) {
+    let pat = |r: &mut Rng| ADAPTER_PATTERNS[r.below(ADAPTER_PATTERNS.len() as u64) as usize];
+    for via_read in [false, true] {
+        for_readers(bytes, pat(r), &mut Cell { tag, ty, desc: desc.to_string(), class: "complete", expect: Expect::Value(v, &[]), via_read, f });
+    }
+    let jl = 1 + r.below(4) as usize;
+    let junk = r.bytes(jl);
+    let mut all = bytes.to_vec();
+    all.extend(&junk);
+    for_readers(&all, pat(r), &mut Cell { tag, ty, desc: format!("{} ++ junk {}", desc, hex_bytes(&junk)), class: "trailing", expect: Expect::Value(v, &junk), via_read: false, f });
+    let n = bytes.len();
+    let ks: Vec<usize> = if n <= 64 { (0..n).collect() } else { (0..16).chain(n - 8..n).chain((0..16).map(|_| r.below(n as u64) as usize)).collect() };
+    for k in ks {
+        for_readers(&bytes[..k], pat(r), &mut Cell::<T> { tag, ty, desc: format!("{} truncated to {} of {} bytes: {}", desc, k, n, hex_bytes(&bytes[..k.min(40)])), class: "truncated", expect: Expect::Eof, via_read: false, f });
+    }
+}
+fn matrix<T: Serializable + Deserializable + PartialEq + Debug>(tag: &str, ty: &str, v: &T, r: &mut Rng, f: &mut Fails) {
+    match catch(AssertUnwindSafe(|| v.to_bytes())) {
+        Ok(b) => matrix_bytes(tag, ty, &format!("{:?}", v), &b, v, r, f),
+        Err(m) => { f.evals += 1; f.fail(&format!("encode-panicked:{}", ty), &format!("{:?}", v), "bytes", &format!("panic: {}", m)); }
+    }
+}
+/// every Serializable / Deserializable impl of utils/core/src/serde/mod.rs (tags as in checks/c12.py)
+fn serde_matrix(r: &mut Rng, f: &mut Fails, reps: usize) {
+    matrix("unit", "()", &(), r, f);
+    for v in [0u8, 1, 0x7f, 0x80, 0xff] { matrix("u8", "u8", &v, r, f); }
+    for v in [0u16, 1, 0xff, 0x100, u16::MAX] { matrix("u16", "u16", &v, r, f); }
+    for v in [0u32, 1, 0xffff, 0x10000, u32::MAX] { matrix("u32", "u32", &v, r, f); }
+    for v in [0u64, 1, u64::MAX, 1 << 63] { matrix("u64", "u64", &v, r, f); }
+    for v in [0u128, 1, u128::MAX, 1 << 127] { matrix("u128", "u128", &v, r, f); }
+    for v in usize_boundaries() { matrix("usize", "usize", &(v as usize), r, f); }
+    matrix("bool", "bool", &Bo(true), r, f);
+    matrix("bool", "bool", &Bo(false), r, f);
+    for _ in 0..reps {
+        let (a, b, c, d, e, g) = (r.next_u64() as u8, r.next_u64() as u16, r.next_u64() as u32, r.next_u64(), r.next_u128(), rand_size(r) as usize);
+        matrix("tuple1", "(u16,)", &(b,), r, f);
+        matrix("tuple1", "(String,)", &(rand_utf8(r, 3),), r, f);
+        matrix("tuple2", "(u16,u8)", &(b, a), r, f);
+        matrix("tuple2", "(Vec<u8>,u64)", &(r.bytes(5), d), r, f);
+        matrix("tuple3", "(u8,u32,bool)", &(a, c, Bo(r.chance(1, 2))), r, f);
+        matrix("tuple4", "(u8,u16,u32,u64)", &(a, b, c, d), r, f);
+        matrix("tuple4", "(String,Option<u8>,Vec<u16>,bool)", &(rand_utf8(r, 2), if r.chance(1, 2) { Some(a) } else { None }, vec![b; r.below(3) as usize], Bo(r.chance(1, 2))), r, f);
+        matrix("tuple5", "(u8,u16,u32,u64,u128)", &(a, b, c, d, e), r, f);
+        matrix("tuple5", "(usize,u128,Option<u16>,u8,String)", &(g, e, Some(b), a, rand_utf8(r, 1)), r, f);
+        matrix("tuple6", "(u8,u16,u32,u64,u128,usize)", &(a, b, c, d, e, g), r, f);
+        matrix("tuple6", "(usize,bool,Vec<u8>,u16,(u8,u8),u32)", &(g, Bo(r.chance(1, 2)), r.bytes(3), b, (a, a ^ 0xff), c), r, f);
+        matrix("option", "Option<u32>", &Some(c), r, f);
+        matrix("option", "Option<Option<u16>>", &(if r.chance(1, 3) { None } else { Some(if r.chance(1, 2) { None } else { Some(b) }) }), r, f);
+        matrix("array", "[u16;4]", &[b, 0, 0xffff, !b], r, f);
+        matrix("array", "[Option<u16>;5]", &[None, Some(0), Some(u16::MAX), None, Some(b)], r, f);
+        let n = *r.pick(&[0usize, 1, 2, 5, 127, 128]);
+        let v16: Vec<u16> = (0..n).map(|_| r.next_u64() as u16).collect();
+        matrix("vec", "Vec<u16>", &v16, r, f);
+        matrix("vec", "Vec<Vec<u8>>", &vec![r.bytes(2), vec![], r.bytes(1)], r, f);
+        // write-only impls: [T] is read back as Vec<T>, str as String, &T as T
+        matrix_bytes("slice", "[u16] -> Vec<u16>", &format!("{:?}", v16), &<[u16] as Serializable>::to_bytes(&v16[..]), &v16, r, f);
+        let vs: Vec<String> = (0..r.below(4)).map(|_| rand_utf8(r, 2)).collect();
+        matrix_bytes("slice", "[String] -> Vec<String>", &format!("{:?}", vs), &<[String] as Serializable>::to_bytes(&vs[..]), &vs, r, f);
+        let sl = *r.pick(&[0usize, 1, 3, 42, 127, 128]);
+        let st = rand_utf8(r, sl);
+        matrix_bytes("str", "str -> String", &hex_bytes(st.as_bytes()), &<str as Serializable>::to_bytes(st.as_str()), &st, r, f);
+        matrix("string", "String", &st, r, f);
+        matrix_bytes("ref", "&u32 -> u32", &format!("{}", c), &<&u32 as Serializable>::to_bytes(&&c), &c, r, f);
+        matrix_bytes("ref", "&(u8,String) -> (u8,String)", &format!("{:?}", (a, &st)), &<&(u8, String) as Serializable>::to_bytes(&&(a, st.clone())), &(a, st.clone()), r, f);
+        let m: BTreeMap<u32, Vec<u8>> = (0..1 + r.below(4)).map(|_| (*r.pick(&[0u32, 1, 255, 256, u32::MAX, 77]), { let n = r.below(4) as usize; r.bytes(n) })).collect();
+        matrix("map", "BTreeMap<u32,Vec<u8>>", &m, r, f);
+        let st: BTreeSet<u64> = (0..1 + r.below(5)).map(|_| *r.pick(&[0u64, 1, 2, 255, 256, u64::MAX, 1 << 40])).collect();
+        matrix("set", "BTreeSet<u64>", &st, r, f);
+    }
+    matrix("array", "[u64;0]", &([] as [u64; 0]), r, f);
+    matrix("map", "BTreeMap<u32,Vec<u8>>", &BTreeMap::<u32, Vec<u8>>::new(), r, f);
+    matrix("set", "BTreeSet<u64>", &BTreeSet::<u64>::new(), r, f);
+    matrix("option", "Option<u32>", &None::<u32>, r, f);
+}
+
 fn falsify(seed: u64, n: usize) {
     let mut r = Rng::new(seed ^ 0xC12);
     let r = &mut r;
-    let mut f = Fails { n: 0, evals: 0 };
+    let mut f = Fails { n: 0, evals: 0, cells: BTreeMap::new() };
     let f = &mut f;
     let reps = (n / 60).max(3);
 
+    serde_matrix(r, f, reps.min(8));
     for v in usize_boundaries() { rt("usize", &format!("{:#x}", v), &(v as usize), r, f); }
     for _ in 0..reps * 4 { let v = rand_size(r); rt("usize", &format!("{:#x}", v), &(v as usize), r, f); }
     for v in [0u8, 1, 127, 128, 255] { rt("u8", &format!("{}", v), &v, r, f); }
@@ -975,6 +1191,7 @@ fn falsify(seed: u64, n: usize) {
         let c = Commitments::new::<Blake3_192<F64>>(vec![], Blake3_192::<F64>::hash(b"b"), vec![Blake3_192::<F64>::hash(b"c"); 2730]);
         rt("Commitments", "constructor-unbounded: 2731 24-byte digests (65544 bytes)", &c, r, f);
     }
+    println!("#cells {{{}}}", f.cells.iter().map(|((t, rd, c), v)| format!("\"{}|{}|{}\":{}", t, rd, c, v)).collect::<Vec<_>>().join(","));
     println!("evaluations={} failures={}", f.evals, f.n);
 }
 
